@@ -181,11 +181,53 @@ def default_arg_calls(ctx):
                                       expected=exp, actual=got, kind="history")
 
 
+CATCH_SIG = "C05-catch-recovery-cache-ignores-context"
+
+
+def catch_under_contexts(ctx):
+    """oracle only: catch() keeps a private cache of its recovery keyed by the caught expression, not by the context."""
+    from redun import task
+    from redun.context import get_context
+    from redun.scheduler import catch
+    ctl_sched.quiet()
+
+    @task(namespace="c05c", version="1")
+    def div(d=get_context("denom", 1)):
+        return 10 // d
+
+    @task(namespace="c05c", version="1")
+    def rec(e):
+        return "recovered"
+
+    @task(namespace="c05c", version="1")
+    def mid():
+        return catch(div(), ZeroDivisionError, rec)
+
+    hit = False
+    for order in ([0, 2], [2, 0], [0, 5, 0], [0, 2, 5]):
+        sched = ctl_sched.make_scheduler(None)
+        got = []
+        for d in order:
+            try:
+                got.append(sched.run(mid.update_context(denom=d)()))
+            except Exception as e:  # noqa: BLE001
+                got.append("!" + type(e).__name__)
+        exp = ["recovered" if d == 0 else 10 // d for d in order]
+        ctx.case(key=("catchctx", tuple(order)), sample={"denoms": order, "results": got}, kind="catch-under-contexts")
+        if got != exp:
+            hit = True
+            ctx.violation(CATCH_SIG, "catch() replayed the recovery computed under another (non-empty) context",
+                          case={"denominators_by_execution": order}, expected=exp, actual=got, kind="history")
+    if not hit:
+        ctx.expect_known(CATCH_SIG, False, case="catch under two non-empty contexts")
+
+
 def run(ctx):
     rng = ctx.rng
     items = []
     reproduced = False
     default_arg_calls(ctx)
+    catch_under_contexts(ctx)
     for defs, cfg in CORPUS:
         p = c06.mk_prog(defs, cfg)
         for ctl, hit in sc.enumerate_schedules_pairs(lambda d: one_run(ctx, p, decisions=d, items=items, tag="corpus-exhaustive"),
